@@ -45,6 +45,15 @@ class PollRun:
         self.env_after = None
         self.outcome = None
 
+    def header_fields(self):
+        """(control_byte, var_idx, var_int) of the caller-owned state as the evaluation left it (None if it is not a Header state)."""
+        pk = getattr(self, "packet", None)
+        st = pk.fields.get("state") if pk is not None else None
+        if isinstance(st, Adt) and st.variant == "Header" and isinstance(st.fields.get("0"), Adt):
+            f = st.fields["0"].fields
+            return f.get("control_byte"), f.get("var_idx"), f.get("var_int")
+        return None, None, None
+
     def run(self):
         try:
             r = self.pe.call_fn(self.fid, [Sym("SELF"), Sym("CX")])
@@ -60,7 +69,8 @@ class PollRun:
         self.last_env = env
         if name == "get_mut" and "Pin" in d:
             self.state_cell = {"v": self.state0}
-            return Adt("common::poll::GenericPollPacket", "GenericPollPacket", {"state": self.state0, "reader": Sym("READER")})
+            self.packet = Adt("common::poll::GenericPollPacket", "GenericPollPacket", {"state": self.state0, "reader": Sym("READER")})
+            return self.packet
         if name == "new" and "Pin" in d:
             return Sym("PINNED")
         if "ReadBuf" in d and name in ("new", "uninit"):
@@ -118,6 +128,14 @@ class PollRun:
             return Sym(("taken", vkey(args[0])))
         if name == "transmute":
             return Sym(("view", vkey(args[0])))
+        if name in ("as_ptr", "as_mut_ptr") and len(args) == 1:
+            return Sym(("ptr", vkey(args[0])))
+        if name == "cast" and len(args) == 1 and isinstance(args[0], Sym) and isinstance(args[0].tag, tuple) and args[0].tag[0] == "ptr":
+            return args[0]
+        if name == "from_raw_parts" and len(args) == 2 and isinstance(args[0], Sym) and isinstance(args[0].tag, tuple) and args[0].tag[0] == "ptr":
+            whole = args[1] == self.ch.get("buf_len", 5) and args[0].tag[1] == vkey(Sym("BUF"))
+            self.calls.append(("raw-view", args[0].tag[1], args[1], whole))
+            return Sym(("view", ("whole", args[0].tag[1]) if whole else ("part", args[0].tag[1], vkey(args[1]))))
         if name in ("index", "index_mut") and len(args) == 2:
             self.calls.append((name, args[0], args[1]))
             return Sym((name, vkey(args[0]), vkey(args[1])))
@@ -285,14 +303,12 @@ def poll_header_rules(F, R):
     advances while k < 3 and a fifth length byte is InvalidVarByteInt; transport Pending / error / zero-length
     read are returned as Pending / that error / IoError(UnexpectedEof)."""
     fid = poll_fn_id(F)
-    ids = _env_vars(F, fid, {"control_byte", "var_idx", "var_int"})
     ACC, CB = Sym("ACC"), Sym("CB")
     # first byte
     b0 = byte(0, False)
     pr = PollRun(F, header_state(NONE, 0, 0), [("byte", b0), ("pending",)]).run()
     ok1 = pr.outcome[0] == "returned" and _ret_kind(pr.outcome[1]) == ("pending",)
-    env = getattr(pr, "env_at_pending", {})
-    cb, vi, acc = _get(env, ids.get("control_byte")), _get(env, ids.get("var_idx")), _get(env, ids.get("var_int"))
+    cb, vi, acc = pr.header_fields()
     R.check(ok1 and cb == some(b0) and vi == 0 and acc == 0, "P-header", "first-byte",
             "after the first byte the header state is control_byte=%r var_idx=%r var_int=%r (expected Some(byte), 0, 0); outcome %s" % (cb, vi, acc, pr.outcome[:1]), where=fid)
     n = 0
@@ -310,8 +326,7 @@ def poll_header_rules(F, R):
                         "length byte %d without continuation bit: Header::new_with receives %s and poll returns %s (expected (control byte, acc | (b & 0x7F) << %d) and the header error unchanged)" % (
                             k + 1, [(repr(c[1]), repr(c[2])) for c in nw], out, 7 * k), where=fid)
             elif k < 3:
-                env = getattr(pr, "env_at_pending", {})
-                vi, acc = _get(env, ids.get("var_idx")), _get(env, ids.get("var_int"))
+                _cb, vi, acc = pr.header_fields()
                 good = out == ("pending",) and vi == k + 1 and acc is not None and _acc_ok(acc, ACC, b, k) and not [c for c in pr.calls if c[0] == "new_with"]
                 R.check(good, "P-header", key,
                         "length byte %d with continuation bit: var_idx becomes %r, var_int %r, outcome %s (expected index %d, acc | (b & 0x7F) << %d, then the next read)" % (
@@ -372,10 +387,8 @@ def poll_complete_rules(F, R):
         caps = [c[1] for c in pr.calls if c[0] in ("with_capacity", "set_len")]
         rbs = [c for c in pr.calls if c[0] == "readbuf"]
         idxm = [c for c in pr.calls if c[0] == "index_mut"]
-        stv = None
-        env = getattr(pr, "env_at_pending", {})
-        sid = _env_vars(F, fid, {"state"}).get("state")
-        stv = _get(env, sid)
+        pk = getattr(pr, "packet", None)
+        stv = pk.fields.get("state") if pk is not None else None      # the caller-owned state as the evaluation left it
         good = out == ("pending",) and caps == [5, 5]
         body_ok = False
         if isinstance(stv, Adt) and stv.variant == "Body":
@@ -444,8 +457,9 @@ def poll_body_rules(F, R):
     # the decoder sees the whole buffer
     pr = PollRun(F, body_state(2), [("chunk", 3)], buf_len=5).run()
     views = [c for c in pr.calls if c[0] == "index" and isinstance(c[2], Adt)]
-    R.check(any(v[2].variant == "RangeFull" and v[1] == Sym("BUF") for v in views), "P-body", "decodes-whole-buffer",
-            "block_decode does not read from the whole body buffer (%s)" % [repr(v[2]) for v in views], where=fid)
+    raw = [c for c in pr.calls if c[0] == "raw-view"]
+    R.check(any(v[2].variant == "RangeFull" and v[1] == Sym("BUF") for v in views) or any(c[3] for c in raw), "P-body", "decodes-whole-buffer",
+            "block_decode does not read from the whole body buffer (%s)" % ([repr(v[2]) for v in views] + [repr(c[1:]) for c in raw]), where=fid)
 
 
 # ---- standalone var-int codec -------------------------------------------------------------------------------------------
